@@ -5,6 +5,7 @@ import (
 	"go/constant"
 	"go/token"
 	"go/types"
+	"slices"
 	"sort"
 	"strings"
 
@@ -311,8 +312,18 @@ func C15(c *Ctx) {
 	}
 
 	const r6 = "K4.manifest-lock"
-	c.Rule(r6, "Manager.apply, logEditsLocked, rewriteLocked and maybeRewriteLocked run with Manager.mu held at every call site (or inside Open/replay before the manager is published)")
-	for _, n := range []string{"Manager.apply", "Manager.logEditsLocked", "Manager.rewriteLocked", "Manager.maybeRewriteLocked"} {
+	c.Rule(r6, "Manager.apply, logEditsLocked, rewriteLocked and every other *Locked method of the manifest manager run with Manager.mu held at every call site (or inside Open/replay before the manager is published)")
+	lockedNames := []string{"Manager.apply", "Manager.logEditsLocked", "Manager.rewriteLocked"}
+	for _, f := range c.P.ModFuncs {
+		// the remaining *Locked methods of the manager (maybeRewriteLocked, helpers split out of the above)
+		if f.Parent() != nil || f.Signature.Recv() == nil || !strings.HasSuffix(f.Name(), "Locked") || !strings.HasPrefix(FuncName(f), "(*manifest.Manager).") {
+			continue
+		}
+		if n := "Manager." + f.Name(); !slices.Contains(lockedNames, n) {
+			lockedNames = append(lockedNames, n)
+		}
+	}
+	for _, n := range lockedNames {
 		fn := c.Fn("manifest", n)
 		if fn == nil {
 			continue
